@@ -1497,6 +1497,133 @@ def lazy_subs_grid(ctx, use_driver=True):
 
 
 # --------------------------------------------------------------------------------------
+# constructor call forms x input layouts, two state pairs of equal size
+# --------------------------------------------------------------------------------------
+
+CF_NAMES = ["time", "x_prev", "y_prev", "x_curr", "y_curr"]
+CF_FORMS = [(tf, sf, mode) for tf in ("var", "str") for sf in ("dict", "dict-rev", "frozenset", "tuple")
+            for mode in ("eager", "lazy")]
+
+
+def _cf_run(form, algo, sum_op, prod_op, trans, T, k):
+    pairs = [("x_prev", "x_curr"), ("y_prev", "y_curr")]
+    tf, sf, mode = form
+    time = Variable("time", Bint[T]) if tf == "var" else "time"
+    step = {"dict": dict(pairs), "dict-rev": dict(reversed(pairs)), "frozenset": frozenset(pairs),
+            "tuple": tuple(pairs)}[sf]
+    if algo == "markov":
+        if mode == "eager":
+            return MarkovProduct(sum_op, prod_op, trans, time, step)
+        with lazy:
+            m = MarkovProduct(sum_op, prod_op, trans, time, step)
+        return reinterpret(m)
+    tv = Variable("time", Bint[T])
+    st = dict(pairs) if sf != "dict-rev" else dict(reversed(pairs))
+    if algo == "seq":
+        return sequential_sum_product(sum_op, prod_op, trans, tv, st)
+    if algo == "naive":
+        return naive_sequential_sum_product(sum_op, prod_op, trans, tv, st)
+    return mixed_sequential_sum_product(sum_op, prod_op, trans, tv, st, num_segments=k)
+
+
+CF_PY = """
+# replay for C10: {algo} {form} on a transition with input layout {layout} (two state pairs of equal size)
+import numpy as np
+from collections import OrderedDict
+import funsor.ops as ops
+from funsor.domains import Bint
+from funsor.tensor import Tensor
+from funsor.terms import Variable
+from funsor.interpretations import lazy
+from funsor.interpreter import reinterpret
+from funsor.sum_product import *
+inf = float("inf")
+data = np.array({data}, dtype=np.float64)
+trans = Tensor(data, OrderedDict({inputs_dom}))
+pairs = [("x_prev", "x_curr"), ("y_prev", "y_curr")]
+tf, sf, mode = {form}
+time = Variable("time", Bint[{T}]) if tf == "var" else "time"
+step = {{"dict": dict(pairs), "dict-rev": dict(reversed(pairs)), "frozenset": frozenset(pairs), "tuple": tuple(pairs)}}[sf]
+if "{algo}" == "markov":
+    if mode == "eager":
+        r = MarkovProduct(ops.{sum_op}, ops.{prod_op}, trans, time, step)
+    else:
+        with lazy:
+            r = MarkovProduct(ops.{sum_op}, ops.{prod_op}, trans, time, step)
+        r = reinterpret(r)
+else:
+    r = {{"seq": sequential_sum_product, "naive": naive_sequential_sum_product}}.get("{algo}", sequential_sum_product)(
+        ops.{sum_op}, ops.{prod_op}, trans, Variable("time", Bint[{T}]), dict(pairs))
+e = naive_sequential_sum_product(ops.{sum_op}, ops.{prod_op}, trans, Variable("time", Bint[{T}]), dict(pairs))
+print(r); print(e)
+FAILS = not (set(r.inputs) == set(e.inputs) and np.allclose(r.align(tuple(e.inputs)).data, e.data, equal_nan=True))
+print("FAILS =", FAILS)
+"""
+
+
+def call_forms_grid(ctx, use_driver=True):
+    """Every layout of (time, x_prev, y_prev, x_curr, y_curr) in trans.inputs (120 permutations: every interleaving,
+    prev order equal to / different from curr order) x constructor call forms of MarkovProduct (time as Variable / as
+    str; step as dict in both insertion orders / frozenset of pairs / tuple of pairs; eager / lazy+reinterpret) and
+    sequential / naive / mixed with the dict in both orders; two state pairs of EQUAL size, so a mis-pairing keeps the
+    shape.  Per layout: the never-exercised `time: str` + `step: dict` form eager and lazy, two further forms and one
+    function, rotating; thorough: every form on every layout.  Oracle: fold over the joint state."""
+    rng = ctx.rng
+    names_sr = list(SEMIRINGS)
+    seed = int(ctx.seed) if str(ctx.seed).lstrip("-").isdigit() else 0
+    for li, layout in enumerate(itertools.permutations(CF_NAMES)):
+        T = 2 + (li % 3)
+        S = 2
+        srname = names_sr[(seed + li) % len(names_sr)]
+        sum_op, prod_op, wire, kind = SEMIRINGS[srname]
+        tol = 1e-9 if kind == "log" else 0.0
+        inputs = [(n, T if n == "time" else S) for n in layout]
+        data = gen_data(rng, tuple(sz for _, sz in inputs), kind)
+        c = dict(T=T, sizes=[S, S], bsizes=[], sr=srname, inputs=inputs, data=data,
+                 names={"time": "time", "prev": ["x_prev", "y_prev"], "curr": ["x_curr", "y_curr"], "batch": []})
+        mats = step_matrices(c, ())
+        if use_driver:
+            fk, fv = parse_mat(ctx.driver.ask([f"C10 fold {wire} {sx(mats)}"])[0])
+            if fk != "value":
+                ctx.infra_errors.append("driver declined a fold in call_forms_grid")
+                return
+        else:
+            fv = py_fold(srname, mats)
+        trans = Tensor(data, OrderedDict((n, Bint[sz]) for n, sz in inputs))
+        if ctx.tier == "quick":
+            runs = [("markov", ("str", "dict", "eager")), ("markov", ("str", "dict-rev", "lazy")),
+                    ("markov", CF_FORMS[(2 * li) % len(CF_FORMS)]), ("markov", CF_FORMS[(2 * li + 1) % len(CF_FORMS)]),
+                    (["seq", "naive", "mixed"][li % 3], ("var", ["dict", "dict-rev"][(li // 3) % 2], "eager"))]
+        else:
+            runs = [("markov", f) for f in CF_FORMS] + [(a, ("var", sf, "eager")) for a in ("seq", "naive", "mixed")
+                                                        for sf in ("dict", "dict-rev")]
+        for algo, form in runs:
+            ctx.count(f"call-form:{algo}:{'/'.join(form)}")
+            try:
+                r = _cf_run(form, algo, sum_op, prod_op, trans, T, 1 + (li % T))
+            except (AssertionError, NotImplementedError, ValueError, KeyError, TypeError, AttributeError) as e:
+                ctx.count(f"call-form:declined-{form[1]}-{type(e).__name__}")
+                continue
+            wit = dict(layout=list(layout), T=T, sr=srname, algo=algo, form=list(form), data=data.tolist())
+            try:
+                impl = impl_matrices(c, r)
+            except (KeyError, ValueError) as e:
+                ctx.fail("input", "C10.call-form-inputs", witness=wit, got=str(e), expected="prev + curr names")
+                continue
+            if impl is None:
+                ctx.count("call-form:lazy")
+                continue
+            if not mats_equal(impl[()], fv, tol_for(fv, tol, ctx)):
+                dom = "[" + ", ".join(f"({n!r}, Bint[{sz}])" for n, sz in inputs) + "]"
+                ctx.fail("input", f"C10.call-form-{algo}-ne-fold", witness=wit, expected=str(fv), got=str(impl[()]),
+                         python=CF_PY.format(algo=algo, form=repr(tuple(form)), layout=list(layout), data=repr(data.tolist()),
+                                             inputs_dom=dom, T=T, sum_op=sum_op.__name__, prod_op=prod_op.__name__))
+                continue
+            ctx.case(sample=dict(kind="call-form", layout=list(layout), algo=algo, form=list(form), sr=srname),
+                     nontrivial_key=("call-form", layout, algo, form, srname, data.tobytes()))
+
+
+# --------------------------------------------------------------------------------------
 # translator: the index expressions of sarkka_bilmes_product, as written in the source
 # --------------------------------------------------------------------------------------
 
@@ -1649,7 +1776,9 @@ def correspond(ctx):
                 "1-2 variables (own lag sets, possibly none), sizes 1-3, optional global input, num_periods 1..3, "
                 "5 semirings; _get_shift/_shift_name vs the Lean string functions; MarkovProduct with empty step "
                 "(time-dependent and not, eager/lazy/reflect+reinterpret) and MarkovProduct(...)(**renaming) "
-                "(fresh names, prev/curr swaps, batch renames); lazily built MarkovProduct substituted WHILE LAZY (rename "
+                "(fresh names, prev/curr swaps, batch renames); two state pairs of equal size in all 120 layouts of trans.inputs x "
+                "constructor call forms (time Variable/str, step dict in both orders/frozenset/tuple, eager/lazy) and seq/naive/"
+                "mixed, against the joint-state fold; lazily built MarkovProduct substituted WHILE LAZY (rename "
                 "prev->curr / curr->prev / swap / fresh x Number or index-Tensor for the other step variable / the renamed-to "
                 "name / batch inputs, in one call and in two calls) then reinterpreted, against the fold with simultaneous-"
                 "substitution semantics; (logaddexp, add) chains and logaddexp reductions on integer "
@@ -1670,6 +1799,7 @@ def correspond(ctx):
         check_empty_step(ctx, gen_empty_step(ctx.rng, ctx.tier))
     for _ in range(120 if quick else 2000):
         check_rename(ctx, gen_rename_case(ctx.rng, ctx.tier))
+    call_forms_grid(ctx)
     lazy_subs_grid(ctx)
     for _ in range(60 if quick else 1500):
         check_lazy_subs(ctx, gen_lazy_subs(ctx.rng, ctx.tier))
@@ -1704,6 +1834,9 @@ def search(ctx, broken):
         if len([f for f in ctx.failures if f.witness is not None]) > before:
             return
     sarkka_exhaustive(ctx, use_driver=False)
+    if len([f for f in ctx.failures if f.witness is not None]) > before:
+        return
+    call_forms_grid(ctx, use_driver=False)
     if len([f for f in ctx.failures if f.witness is not None]) > before:
         return
     for _ in range(6):
